@@ -83,3 +83,8 @@ func SaveStep2(s *StateMachine, meta SSMeta) (pb.Snapshot, SSEnv, error) {
 func GetEncoded(ct config.CompressionType, cmd []byte) []byte {
 	return rsm.GetEncoded(rsm.ToDioType(ct), cmd, nil)
 }
+
+// NewOnDiskSM wraps a user IOnDiskStateMachine the way the node host does.
+func NewOnDiskSM(cfg config.Config, u sm.IOnDiskStateMachine, done <-chan struct{}) IManagedStateMachine {
+	return rsm.NewNativeSM(cfg, rsm.NewOnDiskStateMachine(u), done)
+}
